@@ -318,7 +318,14 @@ pub unsafe extern "C" fn write(fd: c_int, buf: *const c_void, count: size_t) -> 
                         st.counters.lock().unwrap().fired_short += 1;
                         return raw_write(fd, buf, count / 2);
                     }
-                    raw_write(fd, buf, count)
+                    // a scratch write is a scheduling point on both sides: another task may run between a
+                    // task's write and whatever it does next with the file (position query, mmap)
+                    BUSY.with(|b| b.set(false));
+                    crate::ctx::yield_here("sys:scratch_write:pre");
+                    let r = raw_write(fd, buf, count);
+                    crate::ctx::yield_here("sys:scratch_write:post");
+                    BUSY.with(|b| b.set(true));
+                    r
                 }
                 Class::EnvData => {
                     // LMDB does not use write(2) on the data file after creation; count it all the same
